@@ -14,13 +14,14 @@ PROPS = {
     "C14": {
         "title": "Bit-field extraction returns exactly the addressed bits, signed or unsigned",
         "design_ref": "DESIGN.md §7 C14, §4.1",
-        "technique": "Lean 4 proof (induction on field width over the uint64 loop model; wrapped int64 arithmetic) + differential correspondence bitsu/bitsi",
+        "technique": "Lean 4 proof (induction on field width over the uint64 loop model; wrapped int64 arithmetic) + loop body TRANSLATED from the Go source on every run and proved equal to the model step + differential correspondence bitsu/bitsi",
         "text": "Kernel-checked theorems: for every buffer, bit offset and width 1..64 (signed 2..64) inside the buffer the model of "
                 "GetBitsAsUint64/GetBitsAsInt64 (uint64 accumulator and int64 wrap modelled explicitly) returns the big-endian value / "
-                "two's complement of exactly the addressed bits and is independent of every other bit. The model is tied to the Go code by "
-                "differential correspondence over all 8 alignments x all widths x pattern classes, plus an independent math/big oracle.",
+                "two's complement of exactly the addressed bits and is independent of every other bit. translated_loop_body: the Lean function the translator regenerates from the body of the "
+                "loop of GetBitsAsUint64 (index, shift, mask, accumulate in wrapping 64-bit arithmetic) IS the model's loop step, for every buffer, position and accumulator; the loop header and the guards of GetBitsAsInt64 are pinned. "
+                "The whole is tied to the Go code by differential correspondence over all 8 alignments x all widths x pattern classes, plus an independent math/big oracle.",
         "note": "Unbounded in buffer length and position; widths are the complete range 1..64. Assumes pos+len does not overflow uint (positions < 2^63). "
-                "Tie is differential testing (T2), not a translation.",
+                "GetBitsAsInt64's sign arithmetic is modelled by hand (tied by guards and correspondence), the loop body by translation.",
         "assumptions": ["bit positions and widths fit a machine word without overflow (pos + len < 2^64)"],
     },
     "C01": {
